@@ -456,7 +456,7 @@ pub fn line_oracle(td: &TableDefinition, line: &str) -> LineOracle {
     LineOracle { res, json }
 }
 
-fn json_sexp(v: &serde_json::Value, out: &mut String) {
+pub fn json_sexp(v: &serde_json::Value, out: &mut String) {
     match v {
         serde_json::Value::Null => out.push_str("null"),
         serde_json::Value::Bool(b) => out.push_str(&format!("(b {})", flag(*b))),
@@ -511,9 +511,13 @@ pub fn case_line(td: &TableDefinition, line: &str, lo: &LineOracle) -> String {
     }
     s.push_str(") ");
     let any_json = td.columns.iter().any(|c| matches!(c.parsing, ColumnParsing::Json(_)));
-    match (&lo.json, any_json) {
-        (Some(j), true) => { s.push_str("(json "); json_sexp(j, &mut s); s.push(')'); }
-        _ => s.push_str("nojson"),
+    // the document serde_json makes of the line: shipped for every second case (`(json J)` / `notjson`, cross-checked by
+    // the driver against `JsonDoc.docOfLine`), computed by the model for the others (`compute`); `nojson` = no JSON column
+    match (&lo.json, any_json, crate::util::ship_facts(line)) {
+        (_, false, _) => s.push_str("nojson"),
+        (_, true, false) => s.push_str("compute"),
+        (Some(j), true, true) => { s.push_str("(json "); json_sexp(j, &mut s); s.push(')'); }
+        (None, true, true) => s.push_str("notjson"),
     }
     // f64::from_str of every text that may be parsed as REAL
     let mut texts: BTreeSet<String> = BTreeSet::new();
@@ -1328,6 +1332,10 @@ pub fn run(property: &str, p: &Params, json: bool) -> Run {
         // JSON columns, alone and mixed with regex columns
         random_cases(&mut run, &mut rng, p.n(140, 6000), p.n(6, 10), 10);
         random_cases(&mut run, &mut rng, p.n(260, 9000), p.n(6, 10), 5);
+        // `serde_json::from_str::<Value>` as computed by the Lean model (Model/JsonDoc.lean) against the real one
+        let before = run.cases.len();
+        crate::jsontext::doc_stream(&mut run, &mut Rng::new(p.seed ^ 0xD0C), p.n(2000, 50_000));
+        run.notes.push(format!("jsondoc cases (Lean docOfLine vs serde_json::from_str): {}", run.cases.len() - before));
     } else {
         ts_sweep(&mut run, &mut rng);
         literal_sweep(&mut run, &mut rng);
